@@ -137,7 +137,7 @@ def fixed_point_bounded_instance():
             pert = 1e-2 * (rng.normal(size=(N, D)) + (1j * rng.normal(size=(N, D)) if cplx else 0)) / np.sqrt(D)
             y = P[lab] + pert
             if model not in ('gmm',):
-                gain = np.exp(rng.uniform(-3, 3, size=(N, 1))) * (np.exp(1j * rng.uniform(0, 2 * np.pi, size=(N, 1))) if cplx else 1.0)
+                gain = 10.0 ** rng.uniform(-8, 8, size=(N, 1)) * (np.exp(1j * rng.uniform(0, 2 * np.pi, size=(N, 1))) if cplx else 1.0)
                 y = y * gain
             ys.append(y)
             protoS.append(P)
